@@ -317,8 +317,11 @@ func (r *run) monitorEnd(converged bool, epi vh.J) {
 				"sync.revertTask repeats it for ever (no context check); source %v, node %v", r.proj.height, r.proj.headTag, r.proj.below, r.cur(), r.shadow))
 	case !converged && r.broken == "":
 		detail := "other"
-		if r.failedReverts > 0 {
+		switch {
+		case r.failedReverts > 0:
 			detail = "revert-fails"
+		case r.proj.height >= 0 && r.proj.below > r.proj.height && !hasTag(r.cur(), r.proj.headTag):
+			detail = "head-below-retention-floor" // the head must be reverted but its rows are deleted
 		}
 		add := ""
 		if r.note != "" {
